@@ -1,6 +1,6 @@
 (* C14 — footnote references and notes stay in bijection. *)
 From Coq Require Import ZArith List Bool Lia.
-From Verif Require Import PyStr Footnote FootnoteGen FootnoteProofs UtilProofs.
+From Verif Require Import PyStr Footnote FootnoteGen FootnoteProofs UtilProofs DecimalProofs.
 Import ListNotations.
 Local Open Scope nat_scope.
 
@@ -17,6 +17,25 @@ Theorem C14_tie_targets :
   fs_ref_href fn_S = (35 :: fs_item_id fn_S)%Z /\ fs_item_back fn_S = (35 :: fs_ref_id fn_S)%Z /\
   fs_ref_id fn_S <> fs_item_id fn_S.
 Proof. repeat split; try reflexivity. discriminate. Qed.
+
+(* The id STRINGS: "fn-N" and "fnref-N" with N = str(number). Different numbers give different ids, and an item id never
+   equals a reference id - str(int) can be read back (DecimalProofs) and is all digits, so the two families
+   ("fn-" then a digit, "fn" then "r") cannot meet. Together with C14_bijection: every href in the output names exactly one id. *)
+Theorem C14_id_strings_distinct : forall p q,
+  ((fs_item_id fn_S ++ str_of_nat p = fs_item_id fn_S ++ str_of_nat q)%list -> p = q) /\
+  ((fs_ref_id fn_S ++ str_of_nat p = fs_ref_id fn_S ++ str_of_nat q)%list -> p = q) /\
+  (fs_item_id fn_S ++ str_of_nat p <> fs_ref_id fn_S ++ str_of_nat q)%list.
+Proof.
+  intros p q. split; [|split].
+  - intros H. apply app_inv_head in H. apply str_of_nat_inj. exact H.
+  - intros H. apply app_inv_head in H. apply str_of_nat_inj. exact H.
+  - intros H.
+    assert (Hd : forallb is_ascii_digit (str_of_nat p) = true) by apply str_of_nat_digits.
+    change (fs_item_id fn_S) with [102; 110; 45]%Z in H.
+    change (fs_ref_id fn_S) with [102; 110; 114; 101; 102; 45]%Z in H.
+    cbn [app] in H. injection H as H. discriminate H.
+Qed.
+Print Assumptions C14_id_strings_distinct.
 
 Section C14.
 Variable defined : str -> bool.          (* which keys the block rule collected *)
